@@ -8,6 +8,8 @@ UNITS2 = [
     "{a}NCCCCCCN{b}", "{a}[Si](C)(C)O{b}", "{a}CC(Cl){b}", "{a}Cc1ccc(C{b})cc1", "{a}CC(C#N){b}", "{a}C(F)(F)C(F)(F){b}",
     "{a}CC(c1ccc2ccccc2c1){b}", "{a}CC([NH3+]){b}", "{a}C{b}", "{a}CC(O{b})C", "{a}C(N)C{b}", "{a}CSC{b}", "{a}CC(Br){b}",
     "{a}C([13CH3])C{b}", "{a}c1ccc({b})cc1", "{a}CC(=O)OC{b}",
+    # hetero-aromatic rings: every lower-case ring atom (s, o, n) is an atom of its own, also BEFORE the atom a descriptor binds to
+    "{a}c1scc(c1)CC{b}", "{a}c1sc({b})cc1", "{a}Cc1nc(cs1)C{b}", "{a}c1ccc(o1)C{b}", "{a}Cc1cncc(c1){b}",
 ]
 # branching units with three descriptors
 UNITS3 = ["{a}C(C{b})(C{c})", "{a}CC(CC{b})(CC{c})", "{a}N(CC{b})CC{c}", "{a}c1cc({b})cc({c})c1", "{a}C(C{b})C{c}"]
@@ -169,6 +171,28 @@ class Gen:
         tB2 = u3.format(a=self.bd("<", "", r.choice([None, 0, 3])), b=self.bd(">", "", self.weight()))
         return r.choice(PREFIX) + "{[>]" + tA + " [<]}" + self.dist() + "{[>]" + self.ws() + tB1 + ", " + tB2 + " [<]}" + self.dist() + r.choice(SUFFIX)
 
+    def branched_list_endgroup(self):
+        """a branching unit whose descriptors all carry a list with weight on a HEAVY end group: growth steps may attach end groups while other
+        arms stay open; every such residue counts towards the drawn mass"""
+        r = self.r
+        w = r.choice([1, 2, 3])
+        lst = [1, 1, 1, w]
+        d = lambda: self.bd("$", "", lst=lst)
+        unit = r.choice(["{a}CC({b}){c}", "{a}C({b})C{c}", "{a}CC({b})C{c}"]).format(a=d(), b=d(), c=d())
+        eg = r.choice(["[$]Br", "[$]Cl", "[$]OC", "[$]c1ccccc1"])
+        fam = r.choice(["uniform", "gauss"])
+        dist = f"|uniform({self.num(150)},{self.ws()}{self.num(400)})|" if fam == "uniform" else f"|gauss({self.num(250)},{self.ws()}{self.num(40)})|"
+        return "{[]" + unit + "; " + eg + "[]}" + dist
+
+    def mixed_arms_handover(self):
+        """a branching unit that leaves open descriptors of BOTH kinds ('<' and '>') when the object hands over through a non-empty right terminal"""
+        r = self.r
+        unit = r.choice(["[<]CC([>])[>]", "[<]C([>])C[>]", "[<]CC([>])C[>]"])
+        second = r.choice(["", ", [<]C([<])C[>]"])
+        ends = "[<][H]" + (", [>]Cl" if second or r.random() < 0.5 else "")
+        tail = r.choice(["O", "CO", "F"]) if r.random() < 0.6 else "{[<] [<]C(F)C[>]; [>]Br []}" + self.dist(r.choice([80, 150]))
+        return r.choice(["N", "C", "OC"]) + "{[<] " + unit + second + "; " + ends + " [>]}" + self.dist(r.choice([80, 150])) + tail
+
     def step_growth(self):
         r = self.r
         aa = r.choice(["[<]C(=O)CCCCC(=O)[<]", "[<]C(=O)c1ccc(cc1)C(=O)[<]", "[<]OCCO[<]"])
@@ -230,7 +254,7 @@ class Gen:
         return self.r.choice(["CCO", "CCCCC", "c1ccccc1", "OCC(O)CO", "CC(=O)O", "[NH4+]", "C1CCCCC1"])
 
     ARCHETYPES = ["homopolymer", "random_copolymer", "block_copolymer", "alternating", "step_growth", "star", "graft",
-                  "end_initiated", "two_ids", "defective_list", "markov_copolymer", "list_handover"]
+                  "end_initiated", "two_ids", "defective_list", "markov_copolymer", "list_handover", "branched_list_endgroup", "mixed_arms_handover"]
 
     def molecule(self, archetype=None):
         a = archetype or self.r.choice(self.ARCHETYPES)
